@@ -1318,3 +1318,100 @@ Example get_window_example :
   /\ no_cut 1 1000 450000000 (s_tracks (g_seg wit_seg)) (played [wit_seg] 0 450000000)
   /\ no_cut 2 1000 450000000 (s_tracks (g_seg wit_seg)) (played [wit_seg] 0 450000000).
 Proof. vm_compute. repeat split. Qed.
+
+(* ------------------------------------------------------------------ 404 after the reader has finished *)
+
+(* seekAndMux up to, not including, the final flush *)
+Definition mux_all (segs : list gseg) (start duration : Z) : res mstate :=
+  match segs with
+  | [] => ErrOther
+  | g0 :: rest =>
+      let first := g_seg g0 in
+      let start_off := g_start g0 - start in
+      bind (mux_parts (mux_init (s_tracks first)) start_off duration (s_tracks first) (g_parts g0) 0) (fun '(m1, sd) =>
+        mux_rest m1 first start_off start duration first (g_start g0 + sd) rest)
+  end.
+
+Lemma seek_and_mux_all segs start dur :
+  seek_and_mux segs start dur = bind (mux_all segs start dur) (inner_flush true).
+Proof.
+  unfold seek_and_mux, mux_all. destruct segs as [|g0 rest]; [reflexivity|].
+  destruct (mux_parts (mux_init (s_tracks (g_seg g0))) (g_start g0 - start) dur (s_tracks (g_seg g0)) (g_parts g0) 0)
+    as [[m1 sd]| |]; reflexivity.
+Qed.
+
+Lemma mux_all_ev segs start dur m0 :
+  mux_all segs start dur = Ok m0 ->
+  exists g0 rest evs vis, segs = g0 :: rest /\ ev_all segs start dur = Some (evs, (g0, g_start g0 - start) :: vis) /\
+    run_events (mux_init (s_tracks (g_seg g0))) evs = Ok m0.
+Proof.
+  unfold mux_all, ev_all. destruct segs as [|g0 rest]; [discriminate|].
+  destruct (mux_parts (mux_init (s_tracks (g_seg g0))) (g_start g0 - start) dur (s_tracks (g_seg g0)) (g_parts g0) 0)
+    as [[m1 sd]| |] eqn:Ep; try discriminate. cbn [bind].
+  destruct (mux_parts_ev _ _ _ _ _ _ _ _ Ep) as (evs1 & E1 & R1). rewrite E1. intros Er.
+  destruct (mux_rest_ev _ _ _ _ _ _ _ _ _ Er) as (evs2 & vis & E2 & R2). rewrite E2.
+  exists g0, rest, (evs1 ++ evs2), vis. repeat split. rewrite run_events_app, R1. exact R2.
+Qed.
+
+Lemma flat_map_nil {A B} (f : A -> list B) l x : flat_map f l = [] -> In x l -> f x = [].
+Proof.
+  induction l as [|y r IH]; intros H Hin; [destruct Hin|]. cbn [flat_map] in H.
+  apply app_eq_nil in H. destruct H as (H1 & H2). destruct Hin as [->|Hin]; [exact H1|apply IH; assumption].
+Qed.
+
+Lemma final_notfound m A t : Inv m A -> inner_flush true m = ErrNotFound -> In t (m_tracks m) -> aout (A (t_id t)) = [].
+Proof.
+  intros (Hnd & HR) Hf Hin. unfold inner_flush in Hf.
+  destruct (flush_tracks_spec true (m_tracks m)) as (E1 & _).
+  destruct (flush_tracks true (m_tracks m)) as [os ts'] eqn:Eft. cbn [fst] in E1.
+  destruct os as [|o os']; [|discriminate].
+  symmetry in E1. pose proof (flat_map_nil _ _ t E1 Hin) as Hn.
+  rewrite Forall_forall in HR. specialize (HR t Hin).
+  destruct (A (t_id t)) as [pre|rows last]; [reflexivity|]. exfalso.
+  cbn [R] in HR. destruct HR as (Hf0 & _ & _ & Hne & _).
+  unfold flush_track in Hn. assert (E : (0 <=? t_first t) = true) by lia. rewrite E in Hn.
+  destruct (t_rsamples t) as [|h r]; [congruence|].
+  assert (En : ((1 <? Z.of_nat (length (h :: r))) || (true && negb (Z.of_nat (length (h :: r)) =? 0))) = true).
+  { apply orb_true_iff. right. cbn [length andb]. destruct (Z.of_nat (S (length r)) =? 0) eqn:E0; [apply Z.eqb_eq in E0; lia|reflexivity]. }
+  cbn [andb] in Hn. cbn [andb] in En. rewrite En in Hn. discriminate.
+Qed.
+
+(* a 404 produced by the final flush means that no track has a sample of the window in the parts read *)
+Theorem get_notfound_after_reading all start dur segs m0 :
+  find_segments g_start all (Some start) (Some (start + dur)) = Some segs ->
+  mux_all segs start dur = Ok m0 -> on_get all start dur = ErrNotFound ->
+  exists g0 rest, played all start dur = (g0, g_start g0 - start) :: rest /\
+    let tracks := s_tracks (g_seg g0) in
+    (NoDup (track_ids tracks) -> tracks_sorted dur tracks (played all start dur) ->
+     forall id ts c, In (id, ts, c) tracks ->
+       filter (in_win (go_to_mp4 dur ts)) (read_rows id ts dur tracks (played all start dur)) = []).
+Proof.
+  intros Hf Hall Hget. unfold on_get in Hget. rewrite Hf in Hget. rewrite seek_and_mux_all, Hall in Hget. cbn [bind] in Hget.
+  destruct (inner_flush true m0) as [m| |] eqn:Efl; try discriminate. clear Hget.
+  destruct (mux_all_ev segs start dur m0 Hall) as (g0 & rest0 & evs & vis & Esegs & Eall & Hrun).
+  exists g0, vis. unfold played. rewrite Hf, Eall. split; [reflexivity|].
+  intros Hnd Hsorted id ts c Hin. set (tracks := s_tracks (g_seg g0)) in *.
+  assert (Hw : forall id' ts' c', In (id', ts', c') tracks ->
+            wev id' evs = filter (lt_d (go_to_mp4 dur ts')) (read_rows id' ts' dur tracks ((g0, g_start g0 - start) :: vis))).
+  { intros id' ts' c' Hin'. rewrite (ev_all_w id' ts' segs start dur evs _ g0 rest0 Esegs (find_ts_in _ _ _ _ Hnd Hin') Eall).
+    apply taken_rows. exact (Hsorted id' ts' c' Hin'). }
+  assert (Hwsorted : forall id', steps_sorted (map snd (wev id' evs))).
+  { intros id'. destruct (in_dec Z.eq_dec id' (track_ids tracks)) as [Hi|Hi].
+    - unfold track_ids in Hi. apply in_map_iff in Hi. destruct Hi as ([[i t] c'] & Ei & Hi). cbn in Ei. subst i.
+      rewrite (Hw id' t c' Hi). apply filter_lt_sorted. exact (Hsorted id' t c' Hi).
+    - rewrite (run_events_tracks evs _ _ id' Hrun); [exact I|]. rewrite ids_init. exact Hi. }
+  pose proof (Inv_init tracks Hnd) as HI0.
+  assert (Hok : ev_ok (fun _ => APre []) evs) by (apply ev_ok_tracks; intros id'; apply steps_pre; apply Hwsorted).
+  pose proof (Inv_run evs _ _ _ HI0 Hok Hrun) as HI.
+  assert (Ht : exists t, In t (m_tracks m0) /\ t_id t = id).
+  { assert (Hi : In id (ids m0)).
+    { rewrite (ids_run evs _ _ Hrun), ids_init. unfold track_ids.
+      change id with (fst (fst (id, ts, c))). apply (in_map (fun x => fst (fst x))). exact Hin. }
+    unfold ids in Hi. apply in_map_iff in Hi. destruct Hi as (t & E & Hi). exists t. split; assumption. }
+  destruct Ht as (t & Ht & <-).
+  pose proof (final_notfound m0 _ t HI Efl Ht) as Hn.
+  rewrite aall_track, (afold_sorted _ (Hwsorted (t_id t))), (Hw (t_id t) ts c Hin), expected_window in Hn.
+  destruct (filter (in_win (go_to_mp4 dur ts)) (read_rows (t_id t) ts dur tracks ((g0, g_start g0 - start) :: vis))) as [|[s0 t0] w];
+    [reflexivity|].
+  apply app_eq_nil in Hn. destruct Hn as (_ & Hn). discriminate.
+Qed.
